@@ -31,7 +31,8 @@ def TotL (es : List IExpr) : Prop :=
   (∀ exp G Γ s, ∃ ts Γ' s', goBlock es exp G Γ s = some (ts, Γ', s') ∧ Le s s') ∧
   (∀ el G Γ s, ∃ ts Γ' s', goArr es el G Γ s = some (ts, Γ', s') ∧ Le s s') ∧
   (∀ G Γ s, ∃ ts Γ' s', goHead es G Γ s = some (ts, Γ', s') ∧ Le s s') ∧
-  (∀ xs G Γ s, ∃ ts Γ' s', goZipTail es xs G Γ s = some (ts, Γ', s') ∧ Le s s')
+  (∀ xs G Γ s, ∃ ts Γ' s', goZipTail es xs G Γ s = some (ts, Γ', s') ∧ Le s s') ∧
+  (∀ ks ps G Γ s, ∃ ts Γ' s', goIdx es ks ps G Γ s = some (ts, Γ', s') ∧ Le s s')
 def TotA (arms : List IArm) : Prop :=
   ∀ sty exp armTy G Γ s, ∃ tas Γ' s', goArms arms sty exp armTy G Γ s = some (tas, Γ', s') ∧ Le s s'
 
@@ -258,7 +259,7 @@ theorem go_le : ∀ e, Tot1 e := by
           · split
             · exact finish_tot (by le_auto) _ _ _ _ _
             · rename_i look rty mty hlook inst ps r hinst hlen
-              obtain ⟨ts, Γ2, s2, h2, l2⟩ := iha.2.2.2.2.2 ps G Γ1
+              obtain ⟨ts, Γ2, s2, h2, l2⟩ := iha.2.2.2.2.2.1 ps G Γ1
                 ((s1.inst mty).snd.push (Constraint.eq ((tysOf t0s).headD Ty.unit) (ps.headD Ty.unit)))
               simp only [h2]
               exact finish_tot (l1'.trans ((le_inst _ _).trans ((le_push _ _).trans (l2.trans (le_record _ _ _))))) _ _ _ _ _
@@ -294,28 +295,40 @@ theorem go_le : ∀ e, Tot1 e := by
         dsimp only
         split
         · exact finish_tot (by le_auto) _ _ _ _ _
-        · cases hps : (ctorParams (s.mark.inst cty).1).isEmpty with
+        · cases hps : (ctorParams (s.inst cty).1).isEmpty with
           | true =>
-            obtain ⟨ts, Γ1, s1, h1, l1⟩ := ih.1 G Γ (s.mark.inst cty).2
+            obtain ⟨ts, Γ1, s1, h1, l1⟩ := ih.1 G Γ (s.inst cty).2
             simp only [if_true, h1]
-            exact finish_tot ((le_mark _).trans ((le_inst _ _).trans (l1.trans (le_push _ _)))) _ _ _ _ _
+            exact finish_tot (((le_inst _ _).trans (l1.trans (le_push _ _)))) _ _ _ _ _
           | false =>
-            obtain ⟨ts, Γ1, s1, h1, l1⟩ := ih.2.1 (ctorParams (s.mark.inst cty).1) G Γ (s.mark.inst cty).2
+            obtain ⟨ts, Γ1, s1, h1, l1⟩ := ih.2.1 (ctorParams (s.inst cty).1) G Γ (s.inst cty).2
             simp only [Bool.false_eq_true, if_false, h1]
-            exact finish_tot ((le_mark _).trans ((le_inst _ _).trans (l1.trans (le_push _ _)))) _ _ _ _ _
+            exact finish_tot (((le_inst _ _).trans (l1.trans (le_push _ _)))) _ _ _ _ _
+  -- slit
+  · intro i info idxs args ih exp G Γ s
+    cases info with
+    | none => rw [go]; exact finish_tot (by le_auto) _ _ _ _ _
+    | some pr =>
+      obtain ⟨cty, nf⟩ := pr
+      rw [go]
+      dsimp only
+      obtain ⟨ts, Γ1, s1, h1, l1⟩ := ih.2.2.2.2.2.2 idxs (ctorParams (s.mark.inst cty).1) G Γ (s.mark.inst cty).2
+      simp only [h1]
+      exact finish_tot ((le_mark _).trans ((le_inst _ _).trans (l1.trans (le_push _ _)))) _ _ _ _ _
   -- arm
   · intro p body ih; exact ih
   -- []
-  · refine ⟨?_, ?_, ?_, ?_, ?_, ?_⟩
+  · refine ⟨?_, ?_, ?_, ?_, ?_, ?_, ?_⟩
     · intro G Γ s; rw [goL]; exact ⟨_, _, _, rfl, Le.refl _⟩
     · intro xs G Γ s; simp only [goZip]; exact ⟨_, _, _, rfl, Le.refl _⟩
     · intro exp G Γ s; rw [goBlock]; exact ⟨_, _, _, rfl, Le.refl _⟩
     · intro el G Γ s; rw [goArr]; exact ⟨_, _, _, rfl, Le.refl _⟩
     · intro G Γ s; rw [goHead]; exact ⟨_, _, _, rfl, Le.refl _⟩
     · intro xs G Γ s; simp only [goZipTail]; exact ⟨_, _, _, rfl, Le.refl _⟩
+    · intro ks ps G Γ s; simp only [goIdx]; exact ⟨_, _, _, rfl, Le.refl _⟩
   -- e :: es
   · intro e es ihe ihes
-    refine ⟨?_, ?_, ?_, ?_, ?_, ?_⟩
+    refine ⟨?_, ?_, ?_, ?_, ?_, ?_, ?_⟩
     · intro G Γ s
       rw [goL]
       obtain ⟨t, Γ1, s1, h1, l1⟩ := ihe none G Γ s
@@ -352,6 +365,15 @@ theorem go_le : ∀ e, Tot1 e := by
       cases xs with
       | nil => simp only [goZipTail]; exact ⟨_, _, _, rfl, Le.refl _⟩
       | cons x xs => simp only [goZipTail]; exact ihes.2.1 xs G Γ s
+    · intro ks ps G Γ s
+      cases ks with
+      | nil => simp only [goIdx]; exact ⟨_, _, _, rfl, Le.refl _⟩
+      | cons k ks =>
+        simp only [goIdx]
+        obtain ⟨t, Γ1, s1, h1, l1⟩ := ihe ps[k]? G Γ s
+        obtain ⟨ts, Γ2, s2, h2, l2⟩ := ihes.2.2.2.2.2.2 ks ps G Γ1 s1
+        simp only [h1, h2]
+        exact ⟨_, _, _, rfl, l1.trans l2⟩
   -- [] arms
   · intro sty exp armTy G Γ s; rw [goArms]; exact ⟨_, _, _, rfl, Le.refl _⟩
   -- arm :: arms
@@ -378,17 +400,18 @@ theorem go_le : ∀ e, Tot1 e := by
 
 theorem goL_le : ∀ es, TotL es
   | [] => by
-    refine ⟨?_, ?_, ?_, ?_, ?_, ?_⟩
+    refine ⟨?_, ?_, ?_, ?_, ?_, ?_, ?_⟩
     · intro G Γ s; rw [goL]; exact ⟨_, _, _, rfl, Le.refl _⟩
     · intro xs G Γ s; simp only [goZip]; exact ⟨_, _, _, rfl, Le.refl _⟩
     · intro exp G Γ s; rw [goBlock]; exact ⟨_, _, _, rfl, Le.refl _⟩
     · intro el G Γ s; rw [goArr]; exact ⟨_, _, _, rfl, Le.refl _⟩
     · intro G Γ s; rw [goHead]; exact ⟨_, _, _, rfl, Le.refl _⟩
     · intro xs G Γ s; simp only [goZipTail]; exact ⟨_, _, _, rfl, Le.refl _⟩
+    · intro ks ps G Γ s; simp only [goIdx]; exact ⟨_, _, _, rfl, Le.refl _⟩
   | e :: es => by
     have ihe := go_le e
     have ihes := goL_le es
-    refine ⟨?_, ?_, ?_, ?_, ?_, ?_⟩
+    refine ⟨?_, ?_, ?_, ?_, ?_, ?_, ?_⟩
     · intro G Γ s
       rw [goL]
       obtain ⟨t, Γ1, s1, h1, l1⟩ := ihe none G Γ s
@@ -425,6 +448,15 @@ theorem goL_le : ∀ es, TotL es
       cases xs with
       | nil => simp only [goZipTail]; exact ⟨_, _, _, rfl, Le.refl _⟩
       | cons x xs => simp only [goZipTail]; exact ihes.2.1 xs G Γ s
+    · intro ks ps G Γ s
+      cases ks with
+      | nil => simp only [goIdx]; exact ⟨_, _, _, rfl, Le.refl _⟩
+      | cons k ks =>
+        simp only [goIdx]
+        obtain ⟨t, Γ1, s1, h1, l1⟩ := ihe ps[k]? G Γ s
+        obtain ⟨ts, Γ2, s2, h2, l2⟩ := ihes.2.2.2.2.2.2 ks ps G Γ1 s1
+        simp only [h1, h2]
+        exact ⟨_, _, _, rfl, l1.trans l2⟩
 
 theorem goArms_le : ∀ arms, TotA arms
   | [] => by intro sty exp armTy G Γ s; rw [goArms]; exact ⟨_, _, _, rfl, Le.refl _⟩
